@@ -9,19 +9,19 @@ V = os.path.dirname(os.path.dirname(os.path.abspath(__file__)))
 E1 = "bounded-exhaustive enumeration of a finite input space on the real code against a reference model (small-scope explicit enumeration, no sampling)"
 CHECKS = {
  "C01": ("exploration", E1 + ": expression trees vs an exact reference evaluator",
-         "Every fully parenthesised expression tree up to 4 (thorough 5) leaves over a literal ladder (integers, decimals, exponent forms, huge/tiny magnitudes and each percent literal next to its plain twin) and all five operators is evaluated by the real parser+evaluator and compared with an independent exact evaluator run on the generating tree; every operator sequence of length 1..4 (thorough 5) is also written without parentheses and compared with the tree the documented precedence table prescribes; exhaustive within the stated bound.",
+         "Every fully parenthesised expression tree up to 4 (thorough 5) leaves over a literal ladder (integers, decimals, exponent forms, huge/tiny magnitudes and each percent literal next to its plain twin) and all five operators is evaluated by the real parser+evaluator and compared with an independent exact evaluator run on the generating tree; every operator sequence of length 1..4 (thorough 5) is also written without parentheses and compared with the tree the documented precedence table prescribes; integer exponents far beyond the trees' (to +-999) and integer exponents that are not written as integers (2.0, 20e-1, 200%); exhaustive within the stated bound.",
          "num::BigRational is exact; sizes between the ladder rungs behave like the rungs; blank layout is C06's subject.", "3 C01"),
  "C02": ("exploration", E1 + ": all ordered pairs of a unit-spelling set x {+,-,to} vs dimension vectors of an independent unit table",
          "Every ordered pair of ~450 (thorough ~1050) unit spellings (all units, prefixed, products/quotients, powered and prefixed-and-powered, spellings that cancel over the same or over different unit names, spellings that contribute/cancel/re-contribute a base) under + - and to, with non-zero and with zero-valued (written and computed) operands, spellings with one unit on both sides of the slash under different powers (m/m^2), computed operands (every a*b/c and a/b*c over ten quantities cast to, added to and subtracted from twelve targets, judged against the reference evaluation of the tree), three-operand chains over plain numbers, quantities in one unit and quantities in an incommensurable unit, a plain number cast twice, every ordered pair of 14 spellings in which one unit name cancels against itself (with and without written powers) under + - and to, plus plain-number adoption in both operand orders: Ok iff the independent table gives equal base dimensions, with exact SI value and the cast result expressed in the target unit.",
          "Independent unit table (tables.rs); syntactically cancelling spellings (m/m), computed dimensionless operands and prefixed words the tool rejects are not judged.", "3 C02"),
  "C03": ("exploration", E1 + ": commensurable unit pairs, prefixes, powers, composites vs SI scales, plus table-free conversion laws on the real code",
-         "All ordered pairs per commensurability class x magnitudes, every prefix spelling, powers -3..3, every prefix symbol crossed with every power -3..3 (as source, as target and prefix-to-prefix; thorough: on every non-offset unit of the table, powers to +-5, 12 magnitudes per pair), 2-4 factor composites, composites naming the same units on both sides with differently distributed powers and ratio units with a scale but no dimension (min/hr, ft/mi, l/m^3) against the table; round-trip, via-unit, unparenthesised cast chains and scaling laws evaluated on the real code only (no table).",
+         "All ordered pairs per commensurability class x magnitudes, every prefix spelling, powers -3..3, every prefix symbol crossed with every power -3..3 (as source, as target and prefix-to-prefix; thorough: on every non-offset unit of the table, powers to +-5, 12 magnitudes per pair), 2-4 factor composites, composites naming the same units on both sides with differently distributed powers ratio units with a scale but no dimension (min/hr, ft/mi, l/m^3) and prefixed units that cancel half-way through an expression and return with their power (kN/kN^2, ms^-1*ms^2) against the table; round-trip, via-unit, unparenthesised cast chains and scaling laws evaluated on the real code only (no table).",
          "Independent unit table for the direct oracle; the laws need none. Words misread by the unit lexer are left to C05.", "3 C03"),
  "C04": ("exploration", E1 + ": products/quotients/powers of quantities vs SI value and dimension arithmetic",
          "All pairs of 55 quantity spellings (incl. one unit under several prefixes and powers, derived-per-base compounds) under * and / (either side parenthesised), all triples over a core (thorough: over the whole list, plus all quadruples in three groupings over a 10-quantity core), (q)^n for n=-3..3 (thorough -6..6) for every documented unit, one unit under two prefixes and two powers on either side of * and /, zero-valued quantities (written and computed) under ^n, * and /; SI value and base dimensions must equal the reference evaluation of the tree. A temperature on an offset scale (4 spellings x 3 readings) as a factor or divisor of 8 other quantities in both operand orders must be the product of the operands' SI values under the interval or the absolute reading of the degree.",
          "Independent unit table; display unit never compared; whether a degree inside a product is an interval or a refused use is left open (C09), only a value that is neither is reported.", "3 C04"),
  "C05": ("exploration", E1 + ": the whole unit vocabulary (names x prefixes, 2- and 3-name concatenations, unit expressions) vs independent segmentation",
-         "Every name x every prefix spelling, every 2-name concatenation, short 3-name concatenations and all unit expressions of <=3 (4) items through both entry points; every acceptance of a word (by the query path, by str::parse::<Compound>) must mean one of its valid segmentations over the independent table (scale in the prefixes or in the number), bare documented names their own (standard) meaning; every documented unit under the powers 1,-1,2,-2,3 is converted to its dimensions spelled in base units (exact scale^p), which exercises the tool's own per-unit expansion.",
+         "Every name x every prefix spelling, every 2-name concatenation, short 3-name concatenations and all unit expressions of <=3 (4) items through both entry points; every acceptance of a word (by the query path, by str::parse::<Compound>) must mean one of its valid segmentations over the independent table (scale in the prefixes or in the number), bare documented names their own (standard) meaning; every documented unit under the powers 1,-1,2,-2,3 is converted to its dimensions spelled in base units (exact scale^p), which exercises the tool's own per-unit expansion; short histories in one thread over pairs of unit words that also read as one word without the blank (m s / ms, m in / min), both orders.",
          "Independent table; valid readings of an accepted word also admit the SI prefixes of 2022, English plurals of spelled-out names and twelve standard spellings the tool does not document (never used to generate cases); a result in a unit the table does not know is not judged; nine recorded findings (logos lexer drops characters; three test-pinned definitions) are listed in known_findings.txt.", "3 C05"),
  "C06": ("exploration", E1 + ": operator sequences x bracketings x blank layouts vs the documented precedence table",
          "All operator sequences up to length 5 over + - * / ^ with every bracketing (Catalan), minimal and full parentheses, redundant parentheses, function-argument position (incl. a call as the digits argument), `to` chains whose root cast must be expressed in the target unit, every sequence of up to 3 operators over operands that carry a unit (a number with its unit is one value), two or three unit words after a number in every blank layout, and blank layouts (all combinations of homogeneous gaps for <=2 operators, uniform + 1/2-slot deviations beyond, deviations including gaps that mix spaces and tabs, and - judged when the tool takes each of these characters, asked alone, for a blank - gaps with NBSP, EM SPACE and THIN SPACE alone and next to ASCII blanks) are evaluated and compared with the reference evaluation of the tree the documented grammar prescribes.",
